@@ -60,7 +60,7 @@ Example C01_nonvacuous :
      [("_t0", Mul (Var "dt") (Var "v"))]
      [Add (Var "v") (Mul (Var "dt") (Var "a")); Add (Var "x") (Var "_t0")]
      (mkInputs Q (1 # 2)%Q [2%Q; 3%Q] [] [4%Q])
-  = Some [("v", (2 + (1 # 2) * 4)%Q); ("x", (3 + (1 # 2) * 2)%Q)].
+  = Some [("v", 4%Q); ("x", 4%Q)].
 Proof. vm_compute. reflexivity. Qed.
 
 Print Assumptions C01_execute_is_sequential_let.
